@@ -55,6 +55,7 @@ def run_cases(prop_id, model_imports, case_type, check_fn, encoded, shard=400, t
     observation differs from the implementation's."""
     d = os.path.join(env.BUILD, prop_id)
     os.makedirs(d, exist_ok=True)
+    tag = re.sub(r"[^A-Za-z0-9_]", "_", tag)          # the file name is a Coq module name
     for f in os.listdir(d):
         if f.startswith(tag + "_"):
             os.remove(os.path.join(d, f))
